@@ -43,6 +43,23 @@ def new_rsa(bits: int = 2048, fresh: bool = False, pool: int = 2, **extra) -> di
     return {**lst[i], **extra}
 
 
+_RSA_UNUSUAL = {}
+
+
+def new_rsa_unusual(kind: str, **extra) -> dict:
+    """RSA keys as other implementations make them: odd modulus lengths, public exponents other than 65537 (3, 17, 2^32+1).
+    kind = "<bits>e<exponent>"; generated with pycryptodome once per process."""
+    if kind not in _RSA_UNUSUAL:
+        from Crypto.PublicKey import RSA
+        bits, e = kind.split("e")
+        k = RSA.generate(int(bits), e=int(e))
+        dp, dq = k.d % (k.p - 1), k.d % (k.q - 1)
+        qi = pow(k.q, -1, k.p)
+        _RSA_UNUSUAL[kind] = {"kty": "RSA", "n": int_b64(k.n), "e": int_b64(k.e), "d": int_b64(k.d), "p": int_b64(k.p), "q": int_b64(k.q),
+                              "dp": int_b64(dp), "dq": int_b64(dq), "qi": int_b64(qi)}
+    return {**_RSA_UNUSUAL[kind], **extra}
+
+
 def new_ec(crv: str = "P-256", **extra) -> dict:
     from cryptography.hazmat.primitives.asymmetric import ec
     k = ec.generate_private_key(_crypto_curve(crv))
